@@ -81,7 +81,9 @@ PolicyAccepts(d, ctx) == Parseable(d) /\ (Cfg.sig = "verify" => d.signer \in ctx
 Resolves(d, ctx)      == Parseable(d) /\ Cfg.sig # "none" /\ d.signer \in ctx
 \* context of a refresh: the signer persisted by the last accepted intake
 StoredCtx(l) == IF accepted[l] # NoDoc /\ verified[l] THEN {accepted[l].signer} ELSE {}
-InForce(l)  == known[l] /\ accepted[l] # NoDoc
+\* in force: known to the running instance, taken in by policy, and - under the CURRENT policy 'verify' - vouched for by a
+\* persisted signer (a list that an earlier run stored under 'none' / 'verify_log' without verifying it does not count)
+InForce(l)  == known[l] /\ accepted[l] # NoDoc /\ (Cfg.sig = "verify" => verified[l])
 Listed(c)   == \E l \in Locs : InForce(l) /\ <<NameOf(c.ca), c.serial>> \in KeysOf(accepted[l])
 \* ghost update for one fetch of d at l on a path with context ctx
 GhostFetch(acc, ver, l, d, ctx) ==
@@ -128,7 +130,11 @@ RetrySigner(e, ctx) ==
   IF e.sigFailed /\ e.pending \in ctx THEN [e EXCEPT !.signer = e.pending, !.sigFailed = FALSE] ELSE e
 
 \* --- entry creation: addNewEmptyEntry (Loaded is inferred from the meta record of a persistent store)
-Create(e, ctx) == IF e.present THEN e ELSE [e EXCEPT !.present = TRUE, !.loaded = e.meta, !.sigFailed = FALSE, !.pending = "none", !.ctx = ctx]
+\* Under 'verify' data found on disk only counts if the signer that verified it was persisted with it: a list stored by an
+\* earlier run under 'none' / 'verify_log' was never verified.  Deviation "D27": the meta record alone decides.
+Create(e, ctx) == IF e.present THEN e
+                  ELSE [e EXCEPT !.present = TRUE, !.loaded = e.meta /\ ("D27" \in Dev \/ Cfg.sig # "verify" \/ e.signer # "none"),
+                                 !.sigFailed = FALSE, !.pending = "none", !.ctx = ctx]
 
 \* --- one pass over all entries: Repository.UpdateCRLs -----------------------------------------
 \* not loaded -> first-load path with the chains captured at creation; loaded -> refresh with the stored signer
@@ -158,7 +164,7 @@ Fet0 == [l \in Locs |-> 0]
 
 Emit(op, o) == Export => PrintT(<<"EDGE", ToJson([from |-> [cfg |-> cfg, phase |-> phase, ent |-> ent, bg |-> bg, accepted |-> accepted, verified |-> verified, known |-> known],
                                                     op |-> op,
-                                                    to |-> [cfg |-> cfg, phase |-> phase', ent |-> ent', bg |-> bg', accepted |-> accepted', verified |-> verified', known |-> known'],
+                                                    to |-> [cfg |-> cfg', phase |-> phase', ent |-> ent', bg |-> bg', accepted |-> accepted', verified |-> verified', known |-> known'],
                                                     expect |-> o])>>)
 
 Ghost(o) == [o EXCEPT !.listed = [c \in {"c1", "c2", "c3"} |-> Listed(CertById(c))'],
@@ -277,13 +283,17 @@ RefreshAll(o) ==
 \* disk: store directories (keys, meta, locs, signer) survive; memory: everything is gone.
 Restart ==
   /\ phase = "up" /\ Step /\ ~bg
-  /\ LET keep(e) == IF Cfg.disk THEN [e EXCEPT !.present = FALSE, !.loaded = FALSE, !.sigFailed = FALSE, !.pending = "none", !.ctx = {}] ELSE Empty
-         en0 == [l \in Locs |-> keep(ent[l])]
-         acc0 == IF Cfg.disk THEN accepted ELSE [l \in Locs |-> NoDoc]
-         ver0 == IF Cfg.disk THEN verified ELSE [l \in Locs |-> FALSE]
-     IN /\ phase' = "new" /\ ent' = en0 /\ accepted' = acc0 /\ verified' = ver0
-        /\ known' = [l \in Locs |-> FALSE] /\ bg' = FALSE
-        /\ out' = NoOut
+  /\ \E nc \in CfgSpace :
+       /\ nc.disk = cfg.disk /\ nc.conf = cfg.conf          \* the same work_dir, storage and configured locations; policy options may change
+       /\ cfg' = nc
+       /\ LET keep(e) == IF cfg.disk THEN [e EXCEPT !.present = FALSE, !.loaded = FALSE, !.sigFailed = FALSE, !.pending = "none", !.ctx = {}] ELSE Empty
+              en0 == [l \in Locs |-> keep(ent[l])]
+              \* what is on disk stays on disk; whether it is in force is judged by the new configuration (see InForce)
+              acc0 == [l \in Locs |-> IF cfg.disk THEN accepted[l] ELSE NoDoc]
+              ver0 == [l \in Locs |-> cfg.disk /\ verified[l]]
+          IN /\ phase' = "new" /\ ent' = en0 /\ accepted' = acc0 /\ verified' = ver0
+             /\ known' = [l \in Locs |-> FALSE] /\ bg' = FALSE
+             /\ out' = NoOut
   /\ Emit(<<"cleanup">>, out')
 
 \* ---- a handshake without any verified chain: nothing to check, nothing touched ------------------------
@@ -294,12 +304,12 @@ HandshakeNoChain ==
                    listed |-> <<>>, inforce |-> <<>>, intake |-> "none"])
   /\ Emit(<<"handshake-nochain">>, out')
 
-Next == /\ \/ \E d \in DocsU \cup {Down} : Provision(d)
-           \/ \E o \in [Locs -> Docs] : BgLoad(o) \/ RefreshAll(o)
-           \/ Restart
-           \/ \E c \in Certs, d \in Docs : Handshake(c, d)
-           \/ HandshakeNoChain
-        /\ UNCHANGED cfg
+Next == \/ /\ UNCHANGED cfg
+           /\ \/ \E d \in DocsU \cup {Down} : Provision(d)
+              \/ \E o \in [Locs -> Docs] : BgLoad(o) \/ RefreshAll(o)
+              \/ \E c \in Certs, d \in Docs : Handshake(c, d)
+              \/ HandshakeNoChain
+        \/ Restart
 
 Init == /\ cfg \in CfgSpace
         /\ phase = "new"
